@@ -11,14 +11,14 @@ from . import py2lean2g as G
 GEN_REL = os.path.join("MenpoModel", "Generated", "C19Src.lean")
 GEN_TARGETS = ["MenpoModel.Generated.C19Src", "MenpoModel.GenProps.C19Src", "MenpoModel.GenProps.C19SrcRefine"]
 
-OBLIGATIONS = ["genLen_eq", "genCopy_eq", "genGetitem_eq", "genInitFromIterable_eq", "genInitFromIndexCallable_eq",
+OBLIGATIONS = ["genInit_eq", "genLen_eq", "genCopy_eq", "genGetitem_eq", "genInitFromIterable_eq", "genInitFromIndexCallable_eq",
                "genDelayed_eq", "genMap_eq", "genRepeat_eq", "genAdd_eq", "genGlobWithSuffix_eq", "genImporterFor_eq",
                "genImportGlob_eq", "genImport_eq", "genAttachLazy_eq",
                # GenProps/C19SrcRefine.lean: the program semantics built from the translated operations
                "importGlobFull_glob", "progSrc_eq_lazy", "src_refines_listLog", "src_refines_list", "src_getitem_int",
                "src_delayed_eval", "src_video_frames", "src_video_frames_plain",
                "opValueSrc_eq", "hrunSrc_eq", "src_history_frame", "genImport_thunk", "genImport_refused"]
-FUNCTIONS = ["menpo.base.LazyList.__len__", "LazyList.copy", "LazyList.__getitem__", "LazyList.init_from_iterable",
+FUNCTIONS = ["menpo.base.LazyList.__init__", "LazyList.__len__", "LazyList.copy", "LazyList.__getitem__", "LazyList.init_from_iterable",
              "LazyList.init_from_index_callable", "LazyList.map", "LazyList.map.<locals>.delayed", "LazyList.repeat",
              "LazyList.__add__", "menpo.io.input.base.glob_with_suffix", "importer_for_filepath",
              "_import_glob_lazy_list", "_import", "_import_lazylist_attach_landmarks"]
@@ -28,9 +28,9 @@ COMMON = [
     ("isinstance($x, collections_abc.Iterable)", "{x}.iterable"),
     ("len($x)", "(PyLen.len {x})"),
     ("list($x)", "(Py.list {x})"),
-    ("Copyable.copy($x)", "{x}"),
+    ("Copyable.copy($x)", "(LL.fresh {x})"),
 ]
-SET_CALLABLES = [("$x._callables = $v", "x", "(LL.setCallables {x} {v})")]
+SET_CALLABLES = [("$x._callables = $v", "x", "(Fresh.setCallables {x} {v})")]
 RAISES = {"ValueError": ".error .value", "TypeError": ".error .type", "IndexError": ".error .index"}
 
 
@@ -43,20 +43,20 @@ def rules_getitem():
         ("getattr($x, 'ndim', None) == 0", "{x}.zeroDim"),
         ("isinstance($x, int)", "{x}.isInt"),
         ("hasattr($x, '__index__')", "{x}.hasIndex"),
-        ("LazyList($x)", "(LL.new {x})"),
+        ("LazyList($x)", "(LL.newWith genInit {x})"),
         ("$a[$b]", "(PyGetItem.get {a} {b})"),
         ("$t()", "(Py.call {t})"),
     ] + COMMON, iterable="(PyIter.iter {e})", ret="(ToGetRes.ret {e})", raise_=None, raise_by=RAISES)
 
 
-def rules_plain(ret="{e}"):
-    return G.Rules2G(**GEN, expr=COMMON, stmt=SET_CALLABLES, iterable="(PyIter.iter {e})", ret=ret, raise_=None,
-                     raise_by=RAISES)
+def rules_plain(ret="{e}", end=None):
+    return G.Rules2G(**GEN, expr=COMMON, stmt=SET_CALLABLES, iterable="(PyIter.iter {e})", ret=ret, end=end,
+                     raise_=None, raise_by=RAISES)
 
 
 def rules_ctor():
     return G.Rules2G(**GEN, expr=[
-        ("cls($x)", "(LL.new {x})"),
+        ("cls($x)", "(LL.newWith genInit {x})"),
         ("partial($f, $x)", "(PyPartial.ap {f} {x})"),
         ("range($n)", "(Py.range {n})"),
     ] + COMMON, iterable="(PyIter.iter {e})", ret="{e}", raise_=None, raise_by=RAISES)
@@ -69,9 +69,9 @@ def rules_map():
         ("zip($a, $b)", "(List.zip (PyIter.iter {a}) (PyIter.iter {b}))"),
         ("partial(delayed, $g, $x)", "(LThunk.app (ToFnId.fid {g}) {x})"),
         ("partial(_delayed, $g, $x)", "(LThunk.app (ToFnId.fid {g}) {x})"),
-        ("$x.copy()", "(genCopy {x})"),
-    ] + COMMON, stmt=SET_CALLABLES, iterable="(PyIter.iter {e})", ret="(.ok {e})", raise_=None, raise_by=RAISES,
-        skip_defs=["delayed"])
+        ("$x.copy()", "(LL.fresh (genCopy {x}))"),
+    ] + COMMON, stmt=SET_CALLABLES, iterable="(PyIter.iter {e})", ret="(.ok (ToLL.toLL {e}))", raise_=None,
+        raise_by=RAISES, skip_defs=["delayed"])
 
 
 def rules_delayed():
@@ -86,16 +86,16 @@ def rules_repeat():
         ("chain(*$x)", "(Py.chainStar {x})"),
         ("chain.from_iterable($x)", "(Py.chainStar {x})"),
         ("zip(*$x)", "(Py.zipStar {x})"),
-        ("$x.copy()", "(genCopy {x})"),
-    ] + COMMON, stmt=SET_CALLABLES, ret="{e}", raise_=None, raise_by=RAISES,
-        binop={P.ast.Mult: "(Py.listMul {a} {b})"})
+        ("$x.copy()", "(LL.fresh (genCopy {x}))"),
+    ] + COMMON, stmt=SET_CALLABLES, ret="(ToLL.toLL {e})", raise_=None, raise_by=RAISES,
+        binop={P.ast.Mult: "(PyMul.mul {a} {b})"})
 
 
 def rules_add():
     return G.Rules2G(**GEN, expr=[
         ("isinstance($x, LazyList)", "{x}.isLazy"),
         ("LazyList.init_from_iterable($x)", "(genInitFromIterable {x}.items PFn.none)", "bind"),
-        ("LazyList($x)", "(LL.new {x})"),
+        ("LazyList($x)", "(LL.newWith genInit {x})"),
     ] + COMMON, ret="{e}", raise_=None, raise_by=RAISES,
         binop={P.ast.Add: "(PyAdd.add (genAdd fuel) {a} {b})"})
 
@@ -127,7 +127,7 @@ def rules_import_glob():
         ("glob_with_suffix($p, $m, sort=$s)", "(genGlobWithSuffix w {p} {m} {s})"),
         ("$v <= $n", "(Py.optLe {v} {n})", "bind", {"v": "optint"}),
         ("$l[:$n]", "(Py.sliceTo {l} {n})"),
-        ("LazyList($x)", "(LL.new {x})", "bind"),
+        ("LazyList($x)", "(LL.newWith genInit {x})", "bind"),
         ("partial(_import, $f, $m, landmark_resolver=$r, landmark_ext_map=$lx, landmark_attach_func=$la, "
          "importer_kwargs=$kw)", "(importThunkSrc {m} {r} {lx} {la} {f})"),
         ("print_progress($x, prefix=$p, n_items=$n)", "(Py.progress {x})"),
@@ -191,6 +191,17 @@ def delayed_node(LL):
         raise
 
 
+def delayed_args(LL):
+    """`partial(delayed, g, x)` binds POSITIONALLY: the first parameter of `delayed` is the function, the second the
+    wrapped callable, whatever they are called"""
+    node = delayed_node(LL)
+    a = node.args
+    names = [x.arg for x in a.posonlyargs + a.args]
+    if len(names) != 2 or a.vararg or a.kwarg or a.kwonlyargs or a.defaults:
+        raise P.Untranslatable("signature of delayed changed: %s" % P.ast.unparse(a))
+    return node, {names[0]: "f", names[1]: "t"}
+
+
 def items():
     """[(lean signature ending in `:=`, thunk -> body, stub body)] in dependency order"""
     from menpo.base import LazyList
@@ -200,10 +211,13 @@ def items():
     def add(sig, thunk, stub):
         out.append((sig, thunk, stub))
 
+    add("def genInit (callables : List LThunk) : LL :=",
+        lambda: G.Translator2G(rules_plain(ret="(ToLL.toLL {e})", end="(ToLL.toLL {self})")).function(
+            LL.__init__, {"self": "(LL.fresh ⟨[]⟩)", "callables": "callables"}), "⟨[]⟩")
     add("def genLen (s : LL) : Nat :=",
         lambda: G.Translator2G(rules_plain()).function(LL.__len__, {"self": "s"}), "0")
     add("def genCopy (s : LL) : LL :=",
-        lambda: G.Translator2G(rules_plain()).function(LL.copy, {"self": "s"}), "⟨[]⟩")
+        lambda: G.Translator2G(rules_plain(ret="(ToLL.toLL {e})")).function(LL.copy, {"self": "s"}), "⟨[]⟩")
     add("def genGetitem (s : LL) (x : GArg) : Except Err GetRes :=",
         lambda: G.Translator2G(rules_getitem()).function(LL.__getitem__, {"self": "s", "slice_": "x"}),
         ".error .type")
@@ -214,8 +228,7 @@ def items():
         lambda: G.Translator2G(rules_ctor()).function(
             LL.init_from_index_callable.__func__, {"cls": "cls", "f": "f", "n_elements": "n"}), ".error .type")
     add("def genDelayed (e : Env) (bad : Nat → Bool) (f : Nat) (t : LThunk) : Except Err Int × List Ev :=",
-        lambda: G.Translator2G(rules_delayed()).function_node(
-            delayed_node(LL), {"delay_f": "f", "delay_x": "t"}), "(.error .type, [])")
+        lambda: G.Translator2G(rules_delayed()).function_node(*delayed_args(LL)), "(.error .type, [])")
     add("def genMap (s : LL) (f : MArg) : Except Err LL :=",
         lambda: G.Translator2G(rules_map()).function(LL.map, {"self": "s", "f": "f"}), ".error .type")
     add("def genRepeat (s : LL) (n : Int) : LL :=",
